@@ -156,11 +156,12 @@ impl EvaluatedSet {
 }
 impl Clone for MpFilterExpr { fn clone(&self) -> (r: Self) ensures r == *self { MpFilterExpr { id: self.id } } }
 // bgpfu::RpslEvaluator::evaluate: Ok(set) or Err (unknown as-set, IRR error response, IRR unreachable, unsupported construct)
-pub struct RpslEvaluator { pub last_ok: Ghost<bool> }
+// `asked`: ghost log of the expressions handed to the evaluator so far
+pub struct RpslEvaluator { pub last_ok: Ghost<bool>, pub asked: Ghost<Seq<u64>> }
 impl RpslEvaluator {
     #[verifier::external_body]
     pub fn evaluate(&mut self, expr: MpFilterExpr) -> (r: Result<EvaluatedSet, EvalError>)
-        ensures final(self).last_ok@ == (r is Ok)
+        ensures final(self).last_ok@ == (r is Ok), final(self).asked@ == old(self).asked@.push(expr.id)
     { unimplemented!() }
 }
 //@item file=junos-agent/src/policies/mod.rs kind=struct name=Candidate sub=/pub(crate) =>pub /
@@ -171,6 +172,8 @@ impl Candidate {
             res.filter_expr == self.filter_expr,
             // C03: evaluation failure (for whatever reason) is recorded as 'no ranges', never as empty ranges
             res.ranges is Some <==> final(evaluator).last_ok@,                              // OBL:C03.eval.failure_means_no_ranges
+            // C15: evaluating a candidate means asking the evaluator about its expression - exactly once
+            final(evaluator).asked@ == old(evaluator).asked@.push(self.filter_expr.id),         // OBL:C15.eval.candidate_is_handed_to_the_evaluator
 //@end
 }
 
@@ -216,11 +219,20 @@ impl<T> Policies<T> {
     #[verifier::external_body]
     pub fn default() -> (r: Self) ensures r.map.m@ == Map::<u64, T>::empty() { unimplemented!() }
 }
+pub proof fn lemma_push_contains(s: Seq<u64>, x: u64)
+    ensures s.push(x).contains(x), forall|y: u64| s.contains(y) ==> #[trigger] s.push(x).contains(y),
+{
+    assert(s.push(x)[s.len() as int] == x);
+    assert forall|y: u64| s.contains(y) implies #[trigger] s.push(x).contains(y) by {
+        let i = choose|i: int| 0 <= i < s.len() && s[i] == y;
+        assert(s.push(x)[i] == y);
+    }
+}
 spec fn kept(o: Map<u64, Evaluated>, s: Map<u64, Candidate>) -> bool {
     forall|n: u64| #[trigger] o.contains_key(n) ==> s.contains_key(n) && o[n].filter_expr == s[n].filter_expr
 }
 impl Policies<Candidate> {
-//@extract id=policies_evaluate file=junos-agent/src/policies/eval.rs impl=/impl Evaluate for Policies<Candidate>/ fn=evaluate rules=R1,R2,R17,R25
+//@extract id=policies_evaluate file=junos-agent/src/policies/eval.rs impl=/impl Evaluate for Policies<Candidate>/ fn=evaluate rules=R1,R2,R17,R25,R7 r7mapor=option
 //@sig fn evaluate(self, evaluator: &mut RpslEvaluator) -> (res: Policies<Evaluated>)
 //@contract
         // C03 / C15: whatever happens to individual evaluations, every candidate (= policy still marked as managed) is present in
@@ -228,15 +240,24 @@ impl Policies<Candidate> {
         ensures
             forall|n: u64| #[trigger] self.map.m@.contains_key(n) ==> res.map.m@.contains_key(n) && res.map.m@[n].filter_expr == self.map.m@[n].filter_expr,   // OBL:C03+C15.evaluate.every_candidate_is_kept
             forall|n: u64| #[trigger] res.map.m@.contains_key(n) ==> self.map.m@.contains_key(n),
+            // C15: every candidate is handed to the evaluator, whatever happened to the ones before it
+            forall|n: u64| #[trigger] self.map.m@.contains_key(n) ==> final(evaluator).asked@.contains(self.map.m@[n].filter_expr.id),   // OBL:C15.evaluate.every_candidate_is_evaluated
 //@loop 1
             invariant
                 0 <= it__0.pos@ <= it__0.items@.len(),
+                forall|i: int| 0 <= i < it__0.pos@ ==> evaluator.asked@.contains((#[trigger] it__0.items@[i]).1.filter_expr.id),   // OBL:C15.evaluate.evaluated_so_far
                 forall|i: int| 0 <= i < it__0.items@.len() ==> self.map.m@.contains_key((#[trigger] it__0.items@[i]).0) && self.map.m@[it__0.items@[i].0] == it__0.items@[i].1,
                 forall|n: u64| #[trigger] self.map.m@.contains_key(n) ==> exists|i: int| 0 <= i < it__0.items@.len() && (#[trigger] it__0.items@[i]).0 == n,
                 forall|i: int| 0 <= i < it__0.pos@ ==> out__0.m@.contains_key((#[trigger] it__0.items@[i]).0),
                 kept(out__0.m@, self.map.m@),
             ensures it__0.pos@ == it__0.items@.len(),
             decreases it__0.items@.len() - it__0.pos@,
+//@after /let evaluated = / optional
+                proof {
+                    // total lemmas about the evaluator's log (cannot fail): whatever was asked before is still in the log after one
+                    // more question, and the last question is in the log
+                    assert forall|q: Seq<u64>, x: u64| #![trigger q.push(x)] q.push(x).contains(x) && (forall|y: u64| q.contains(y) ==> #[trigger] q.push(x).contains(y)) by { lemma_push_contains(q, x); }
+                }
 //@end
 }
 
